@@ -34,3 +34,53 @@ Theorem C14_max_is_neg_min : forall (F : Type) (O : Ops F) (p : N) (xs : list F)
   max_outs O (mkMax p 0 0 (repeat (ninf O) (N.to_nat p))) xs =
   map (neg O) (min_outs O (mkMin p 0 0 (repeat (inf O) (N.to_nat p))) (map (neg O) xs)).
 Proof. intros F O p xs NR. exact (max_is_neg_min O NR p xs). Qed.
+
+(* ---- further covariance theorems (Proofs/XCov.v): dimensionless indicators, MACD, shifts, Minimum/Maximum ---- *)
+From Coq Require Import List.
+From TA Require Import Proofs.XRoc Proofs.XEr Proofs.XMfi Proofs.XBands Proofs.XCci Proofs.XFast Proofs.XCov.
+
+Theorem C14_wma_shift : forall p s d xs, wma_new XROps p = Ok s ->
+  XWma.wma_outs s (map Fin (map (Rplus d) xs)) = map (fun o => add XROps (Fin d) o) (XWma.wma_outs s (map Fin xs)).
+Proof. exact wma_shift. Qed.
+Theorem C14_mad_shift : forall p s d xs, mad_new XROps p = Ok s ->
+  XMad.mad_outs s (map Fin (map (Rplus d) xs)) = XMad.mad_outs s (map Fin xs).
+Proof. exact mad_shift. Qed.
+Theorem C14_sd_shift : forall p s d xs, sd_new XROps p = Ok s ->
+  XSd.sd_outs s (map Fin (map (Rplus d) xs)) = XSd.sd_outs s (map Fin xs).
+Proof. exact sd_shift. Qed.
+
+(* Minimum and Maximum commute with every strictly increasing map of the prices: x -> c*x (c > 0), x -> x + d, ... *)
+Theorem C14_min_mono : forall p s f xs, min_new XROps p = Ok s -> increasing f ->
+  min_outs XROps s (map Fin (map f xs)) = map (xmap f) (min_outs XROps s (map Fin xs)).
+Proof. exact min_mono. Qed.
+Theorem C14_max_mono : forall p s f xs, max_new XROps p = Ok s -> increasing f ->
+  max_outs XROps s (map Fin (map f xs)) = map (xmap f) (max_outs XROps s (map Fin xs)).
+Proof. exact max_mono. Qed.
+
+(* FastStochastic is unchanged by x -> c*x + d, c > 0 *)
+Theorem C14_fast_affine : forall p s c d xs, fast_new XROps p = Ok s -> 0 < c ->
+  fast_outs XROps s (map Fin (map (fun y => c * y + d) xs)) = fast_outs XROps s (map Fin xs).
+Proof. exact fast_affine. Qed.
+
+(* MACD: exact real form; scales with the unit; unchanged by a shift *)
+Theorem C14_macd_scale : forall k1 k2 k3 c xs,
+  macd_real k1 k2 k3 (map (Rmult c) xs) = map (map (Rmult c)) (macd_real k1 k2 k3 xs).
+Proof. exact macd_scale. Qed.
+Theorem C14_macd_shift : forall k1 k2 k3 d xs, macd_real k1 k2 k3 (map (Rplus d) xs) = macd_real k1 k2 k3 xs.
+Proof. exact macd_shift. Qed.
+Theorem C14_macd_real : forall p1 p2 p3 s xs, macd_new XROps p1 p2 p3 = Ok s ->
+  macd_outs XROps s (map Fin xs) = map (map Fin) (macd_real (kreal p1) (kreal p2) (kreal p3) xs).
+Proof. exact macd_exact. Qed.
+
+(* the dimensionless indicators are unchanged when every price is multiplied by c > 0, IEEE corner cases included *)
+Theorem C14_ppo_scale : forall p1 p2 p3 s c xs, ppo_new XROps p1 p2 p3 = Ok s -> 0 < c ->
+  ppo_outs XROps s (map Fin (map (Rmult c) xs)) = ppo_outs XROps s (map Fin xs).
+Proof. exact ppo_scale. Qed.
+Theorem C14_roc_scale : forall p h x c, 0 < c -> roc_spec p (map (Rmult c) h) (c * x) = roc_spec p h x.
+Proof. exact roc_scale. Qed.
+Theorem C14_er_scale : forall p h x c, 0 < c -> er_spec p (map (Rmult c) h) (c * x) = er_spec p h x.
+Proof. exact er_scale. Qed.
+Theorem C14_cci_scale : forall p h tp c, 0 < c -> cci_spec p (map (Rmult c) h) (c * tp) = cci_spec p h tp.
+Proof. exact cci_scale. Qed.
+Theorem C14_mfi_scale : forall p b0 bs c, 0 < c -> mfi_spec p (mscale c b0) (map (mscale c) bs) = mfi_spec p b0 bs.
+Proof. exact mfi_scale. Qed.
